@@ -217,6 +217,14 @@ def apply_letter(W, L):
                 getattr(f, nm)[..., 0:1] = val
             elif how == 'subslice':
                 getattr(f, nm)[..., 0:][..., 0:1] = val
+            elif how == 'keptview':
+                # a view of the coefficient array taken once and kept by the caller (c_in = BC.left.c[..., 0:1]); every later
+                # change of the data is written through it. The object is kept alive with the view (ids are not reused).
+                kept = W.__dict__.setdefault('kept', {})
+                ent = kept.get((id(BC), side, nm))
+                if ent is None:
+                    ent = kept[(id(BC), side, nm)] = (BC, getattr(f, nm)[..., 0:1])
+                ent[1][...] = val
             elif how == 'iop':
                 x = getattr(f, nm)
                 x *= val
@@ -229,7 +237,7 @@ def apply_letter(W, L):
             arr[...] = val
         elif how == 'elem':
             arr[tuple(0 for _ in arr.shape)] = val
-        elif how in ('slice', 'subslice'):
+        elif how in ('slice', 'subslice', 'keptview'):
             arr[..., 0:1] = val
         elif how == 'iop':
             arr *= val
@@ -418,7 +426,10 @@ def random_letter(rng, W, allow_share=True):
     if r < 0.22:
         side = str(rng.choice(sides))
         nm = str(rng.choice(BCNAMES))
-        how = str(rng.choice(['assign', 'elem', 'slice', 'subslice', 'iop', 'iop2', 'assign']))
+        how = str(rng.choice(['assign', 'elem', 'slice', 'subslice', 'iop', 'iop2', 'assign', 'keptview', 'keptview']))
+        if how == 'keptview':
+            # always the same coefficient of the same side for a given variable: later letters of this kind write through the SAME view
+            side, nm = sides[i % len(sides)], 'c'
         val = float(np.round(rng.normal(0, 1), 3))
         if nm == 'b' and abs(val) < 0.2:
             val = 0.7
@@ -616,6 +627,8 @@ def run_case(case):
     if case['kind'] == 'exhaustive':
         A = reduced_alphabet(g, cls)
         letters = [A[j] for j in case['letters']]
+    elif case['kind'] == 'directed':
+        letters = [tuple(L) for L in case['letters']]
     else:
         W0 = World(cls, faces, coef)
         W0.nrec = 1
@@ -688,6 +701,18 @@ def plan(tier, seed):
     step = 150
     for j in range(0, len(cases), step):
         chunks.append(cases[j:j + step])
+    # directed histories on every class: a view of a coefficient array kept by the caller and written through before each of several
+    # solves / refreshes (also on a copy, also next to whole-array assignments)
+    dc = []
+    for ci, cls in enumerate(CLASSES):
+        s0 = SIDES[NDIM[cls] - 1][1]
+        kv = lambda i_, v_: ['bc', i_, s0, 'c', 'keptview', v_]
+        for seq in ([kv(0, 0.7), ['solve', 0], kv(0, -0.4), ['solve', 0], kv(0, 1.1)],
+                    [kv(0, 0.7), ['apply', 0], kv(0, -0.4), ['explicit', 0], kv(0, 0.2)],
+                    [['copy', 0, 1], kv(1, 0.7), ['solve', 1], kv(1, -0.4), kv(0, 0.9), ['solve', 0], kv(0, 0.3)],
+                    [kv(0, 0.7), ['solve', 0], ['bc', 0, s0, 'c', 'assign', 0.5], ['solve', 0], kv(0, -0.4)]):
+            dc.append({'kind': 'directed', 'cls': cls, 'letters': seq, 'seed': [seed, 9, 50 + ci]})
+    chunks.append(dc)
     per = 60 if tier == 'quick' else 1500
     for ci, cls in enumerate(CLASSES):
         rc = [{'kind': 'random', 'cls': cls, 'seed': [seed, 9, 100 + ci, i],
